@@ -91,16 +91,31 @@ class _Guard:
             signal.setitimer(signal.ITIMER_REAL, 0)
             signal.signal(signal.SIGALRM, old)
 
+    HANG_BUDGET = 240.0     # seconds spent in hanging rows before the run is aborted
+
+    def _dead(self, td, e):
+        self.crashed.append(type(e).__name__ + ":" + str(e)[:80])
+        dead = td.clone()
+        dead.set("action_mask", torch.zeros_like(dead["action_mask"]))
+        return dead
+
     def _rec(self, td):
         n = td.shape[0]
         try:
-            return self._timed(td.clone(), 60 if n > 64 else 5)
-        except Exception as e:  # noqa: BLE001  (AssertionError, IndexError, _StepTimeout ...)
+            return self._timed(td.clone(), 1.0 if n == 1 else 10 + n / 100)
+        except _StepTimeout as e:
             if n == 1:
-                self.crashed.append(type(e).__name__ + ":" + str(e)[:80])
-                dead = td.clone()
-                dead.set("action_mask", torch.zeros_like(dead["action_mask"]))
-                return dead
+                object.__setattr__(self, "hung", getattr(self, "hung", 0) + 1)
+                if self.hung * 1.0 > self.HANG_BUDGET:
+                    raise RuntimeError("env.step does not return (hang) for %d rows so far, e.g. "
+                                       "proc_times=%s action=%s time=%s" % (
+                                           self.hung, td["proc_times"][0].tolist(),
+                                           td["action"].tolist(), td["time"].tolist()))
+                return self._dead(td, e)
+            return torch.cat([self._rec(td[r:r + 1]) for r in range(n)], 0)      # hang: row by row
+        except Exception as e:  # noqa: BLE001  (AssertionError, IndexError ...): bisect
+            if n == 1:
+                return self._dead(td, e)
             h = n // 2
             return torch.cat([self._rec(td[:h]), self._rec(td[h:])], 0)
 
